@@ -3,7 +3,8 @@
    FAMILY "ctx": all histories of up to 4 evaluations under a filter context (each succeeds, fails with an evaluation
    error, or fails with an exception raised inside a helper): the context is the evaluation's filter during it, none after. *)
 EXTENDS C7nLib, TLC
-CONSTANT FAMILY
+CONSTANTS FAMILY, TIER
+Deep == TIER = "thorough"
 VARIABLES call, exp, c7n, hist
 vars == <<call, exp, c7n, hist>>
 I(n) == IntV(FromInt(n))
@@ -12,10 +13,10 @@ RECURSIVE Seqs(_,_)
 Seqs(A, n) == IF n = 0 THEN {<<>>} ELSE LET r == Seqs(A, n - 1) IN r \cup { Append(s, a) : s \in { x \in r : Len(x) = n - 1 }, a \in A }
 StrElems == { S(<<97>>), S(<<98>>), S(<<99>>) }
 IntElems == { I(1), I(2), I(3) }
-Lists(E) == { List(s) : s \in Seqs(E, 3) }
+Lists(E) == { List(s) : s \in Seqs(E, IF Deep THEN 4 ELSE 3) }
 NormTexts == Seqs({97, 66, 32}, 4) \cup { <<9, 65, 10>>, <<32, 32>>, <<90, 32, 90>> }
 GlobTexts == Seqs({97, 66, 91, 32}, 3)
-GlobPats == Seqs({97, 66, 42, 63, 91, 93}, 3) \cup { <<91, 33, 97, 93>>, <<91, 97, 66, 93>>, <<91, 33, 97, 93, 42>>, <<42, 91, 97, 93>>, <<91, 93, 93>>, <<91, 33, 93, 97, 93>>, <<97, 42, 66, 42>>, <<42, 42, 97>>, <<63, 42, 63>> }
+GlobPats == Seqs({97, 66, 42, 63, 91, 93}, IF Deep THEN 4 ELSE 3) \cup { <<91, 33, 97, 93>>, <<91, 97, 66, 93>>, <<91, 33, 97, 93, 42>>, <<42, 91, 97, 93>>, <<91, 93, 93>>, <<91, 33, 93, 97, 93>>, <<97, 42, 66, 42>>, <<42, 42, 97>>, <<63, 42, 63>> }
 Base == <<10, 129, 66, 7>>
 \* flip bit k (0 = most significant) of an address
 PowTwo(n) == 2 ^ n
@@ -23,7 +24,7 @@ FlipBit(a, k) == LET o == (k \div 8) + 1  b == 7 - (k % 8)  v == a[o] IN
                  [a EXCEPT ![o] = IF (v \div PowTwo(b)) % 2 = 1 THEN v - PowTwo(b) ELSE v + PowTwo(b)]
 Nets == { [a |-> Masked(Base, l), len |-> l] : l \in 0..32 }
 Addrs == { Base } \cup { FlipBit(Base, k) : k \in 0..31 } \cup { <<0, 0, 0, 0>>, <<255, 255, 255, 255>> }
-Vers == { s \in Seqs({0, 1, 9, 10}, 3) : s # <<>> }
+Vers == { s \in Seqs({0, 1, 9, 10} \cup (IF Deep THEN {2, 100} ELSE {}), 3) : s # <<>> }
 TagVals == { <<118>>, <<109, 58, 115, 116, 111, 112, 64, 50, 48, 50, 48, 45, 48, 57, 45, 49, 48>>,                       \* v ; m:stop@2020-09-10
              <<120, 58, 121, 58, 115, 116, 111, 112, 64, 50, 48, 50, 49, 45, 48, 50, 45, 50, 56>>,                        \* x:y:stop@2021-02-28
              <<110, 111, 97, 116>>, <<>>, <<109, 58, 97, 64, 98, 64, 50, 48, 50, 48, 45, 48, 49, 45, 48, 49>>,             \* noat ; (empty) ; m:a@b@2020-01-01
